@@ -30,6 +30,8 @@ pub struct Style {
     pub comments: bool,      // insert # comments between/after clauses
     pub blank_lines: bool,   // blank lines between clauses, trailing spaces
     pub break_lists: bool,   // line breaks inside list literals / filters
+    pub sep: u8,             // blank between tokens: 0 one space, 1 a tab, 2 two spaces
+    pub crlf: bool,          // lines end with CR LF
     pub bare_default: bool,  // render a rule named "default" as bare clauses
     pub type_as_query: bool, // render type blocks as Resources.*[ Type == 'X' ] { .. }
     pub mix: u64,            // != 0: every token occurrence picks its own variant (seeded)
@@ -83,13 +85,22 @@ impl<'a> R<'a> {
             _ => "or",
         }
     }
+    /// the blank between two tokens of a clause
+    fn sp(&self) -> &'static str {
+        let v = match self.coin(3) { Some(c) => c as u8, None => self.st.sep };
+        match v {
+            1 => "\t",
+            2 => "  ",
+            _ => " ",
+        }
+    }
     /// prefix negation, including the separator it needs
-    fn not(&self) -> &'static str {
+    fn not(&self) -> String {
         let v = match self.coin(3) { Some(c) => c as u8, None => self.st.not_variant };
         match v {
-            1 => "NOT ",
-            2 => "!",
-            _ => "not ",
+            1 => format!("NOT{}", self.sp()),
+            2 => "!".to_string(),
+            _ => format!("not{}", self.sp()),
         }
     }
     fn ind(&self, lvl: usize) -> String {
@@ -187,7 +198,7 @@ impl<'a> R<'a> {
                         "eq" => o.push_str(if on { "!=" } else { "==" }),
                         "in" => {
                             if on {
-                                o.push_str(self.not());
+                                o.push_str(&self.not());
                             }
                             o.push_str(&self.kw("in"));
                         }
@@ -255,7 +266,7 @@ impl<'a> R<'a> {
                     "is_null" => "is_null",
                     other => panic!("unknown op {}", other),
                 };
-                format!("{}{}", if on { self.not() } else { "" }, self.kw(w))
+                format!("{}{}", if on { self.not() } else { String::new() }, self.kw(w))
             }
         }
     }
@@ -296,20 +307,20 @@ impl<'a> R<'a> {
             "gac" => {
                 let mut o = String::new();
                 if c["neg"].as_bool().unwrap_or(false) {
-                    o.push_str(self.not());
+                    o.push_str(&self.not());
                 }
                 if !c["all"].as_bool().unwrap_or(true) {
                     o.push_str(&self.kw("some"));
-                    o.push(' ');
+                    o.push_str(self.sp());
                 }
                 o.push_str(&self.query(&c["q"], lvl));
-                o.push(' ');
+                o.push_str(self.sp());
                 o.push_str(&self.op_text(
                     c["op"].as_str().unwrap(),
                     c["on"].as_bool().unwrap_or(false),
                 ));
                 if let Some(r) = c["rhs"].as_array().and_then(|a| a.first()) {
-                    o.push(' ');
+                    o.push_str(self.sp());
                     o.push_str(&self.rhs(r, lvl));
                 }
                 o.push_str(&self.msg(c));
@@ -318,7 +329,7 @@ impl<'a> R<'a> {
             "named" => {
                 let mut o = String::new();
                 if c["neg"].as_bool().unwrap_or(false) {
-                    o.push_str(self.not());
+                    o.push_str(&self.not());
                 }
                 o.push_str(c["n"].as_str().unwrap());
                 o.push_str(&self.msg(c));
@@ -327,7 +338,7 @@ impl<'a> R<'a> {
             "pcall" => {
                 let mut o = String::new();
                 if c["neg"].as_bool().unwrap_or(false) {
-                    o.push_str(self.not());
+                    o.push_str(&self.not());
                 }
                 let args: Vec<String> =
                     c["a"].as_array().unwrap().iter().map(|a| self.rhs(a, lvl)).collect();
@@ -435,7 +446,7 @@ impl<'a> R<'a> {
                         }
                     }
                 } else {
-                    o.push_str(&format!(" {} ", self.or()));
+                    o.push_str(&format!("{}{}{}", self.sp(), self.or(), self.sp()));
                 }
             }
             o.push_str(a);
@@ -516,6 +527,8 @@ impl Style {
             comments: b("comments"),
             blank_lines: b("blanks"),
             break_lists: b("breaks"),
+            sep: n("sep") as u8,
+            crlf: b("crlf"),
             bare_default: b("bare"),
             type_as_query: b("tq"),
             mix: n("mix"),
@@ -529,5 +542,10 @@ pub fn render_file(f: &J) -> String {
 }
 
 pub fn render_file_with(f: &J, st: &Style) -> String {
-    R::new(st).file(f)
+    let t = R::new(st).file(f);
+    if st.crlf {
+        t.replace('\n', "\r\n")
+    } else {
+        t
+    }
 }
